@@ -130,6 +130,24 @@ def coverage_schedules(rng):
         c, d = rng.sample(range(len(COMPS)), 2)
         out.append(("viewentry", [Sys(False, [(a, c)], ("none",), [], []), Sys(False, [(K_ID, None)], ("none",), [], [(b, c)]),
                                   Sys(False, [(K_REF, d)], ("none",), [], [(a, c)])]))
+    # one task viewing a component immutably through both its views and its entry views, next to
+    # other readers of that component: nothing conflicts, everything must share a stage
+    for (a, b) in [(K_REF, K_REF), (K_REF, K_OPT), (K_OPT, K_REF), (K_OPT, K_OPT)]:
+        c, d = rng.sample(range(len(COMPS)), 2)
+        tasks = [Sys(False, [(a, c)], ("none",), [], [(b, c)]), Sys(rng.random() < 0.5, [(K_REF, c)], ("none",), [], []),
+                 Sys(False, [(K_ID, None), (K_OPT, c)], ("none",), [], [(K_REF, c)]), Sys(False, [(K_MUT, d)], ("none",), [], [(K_OPT, c)])]
+        rng.shuffle(tasks)
+        out.append(("sharedimmutable", tasks))
+    # identifier views never conflict, wherever the task stands
+    for _ in range(2):
+        c, d, e = rng.sample(range(len(COMPS)), 3)
+        out.append(("identifier", [Sys(False, [(K_MUT, c)], ("none",), [], []), Sys(rng.random() < 0.5, [(K_ID, None), (K_MUT, d)], ("none",), [], []),
+                                   Sys(False, [(K_ID, None)], ("none",), [], [(K_MUT, e)]), Sys(False, [(K_REF, c), (K_ID, None)], ("none",), [], [])]))
+    # immutable pairs in entry/entry and entry/views positions
+    for (a, b) in [(K_REF, K_OPT), (K_OPT, K_REF)]:
+        c, d, e = rng.sample(range(len(COMPS)), 3)
+        out.append(("entryentry", [Sys(False, [(K_MUT, d)], ("none",), [], [(a, c)]), Sys(False, [(K_MUT, e)], ("none",), [], [(b, c)]),
+                                   Sys(rng.random() < 0.5, [(b, c)], ("none",), [], [])]))
     # resources
     for (a, b) in [(K_MUT, K_REF), (K_REF, K_REF), (K_MUT, K_MUT), (K_REF, K_MUT)]:
         r = rng.randrange(len(RES))
